@@ -28,11 +28,24 @@ THEOREMS = [
     "Ural.Props.C15.redirectSearch_embedded",
     "Ural.Props.C15.infer_target_embedded",
     "Ural.Props.C15.infer_result_chain",
+    # every hop reads the cleaned form of what it is given (seeded change C15-4)
+    "Ural.Props.C15.stepOf_eq_hop",
+    "Ural.Props.C15.inferOf_eq_hop",
+    "Ural.Props.C15.hop_cases",
+    "Ural.Props.C15.inferFuel_eq_iterStep",
+    "Ural.Props.C15.inferOf_hops_clean",
+    "Ural.Props.C15.inferOf_hop_reads_cleaned",
+    "Ural.Props.C15.infer_every_hop_cleans",
+    "Ural.Props.C15.infer_eq_iterated_step",
+    "Ural.Props.C15.clean_once_is_not_a_fixed_point",
+    "Ural.Props.C15.cleanedUrl_is_regenerated_cleaning",
+    "Ural.cleanedUrl_idempotent",
 ]
 TABLE_OBLIGATIONS = [
     "Ural.Props.C15.redirect_patterns_shape",
     "Ural.Props.C15.urllib_tables_unchanged",
     "Ural.Props.C15.protocol_pattern_unchanged",
+    "Ural.Props.C15.cleaning_class_unchanged",
 ]
 RULE = (
     "A case is one url; infer_redirection is run with recursive=True and recursive=False (model vs implementation), "
@@ -42,7 +55,11 @@ RULE = (
     "re.I folds onto ASCII) x 16 placements (query first/middle/last, path, fragment, userinfo, host position, scheme-less, "
     "bare, /url?q=, youtube redirect, ...) x 31 targets (absolute http(s), scheme-less, '/x', '/?u=/x', '//b.com/x', dot segments, "
     ";params, brackets, stray %, invalid UTF-8 escapes, TAB/CR/LF/NUL, IPv6 / IPvFuture / malformed bracketed hosts, non-ASCII, empty, self-referential) x 0-2 (quick) / 0-3 (thorough) extra levels of percent-encoding, "
-    "chains nested 1-4 deep with matching levels of encoding, AMP/Marfeel cache hosts x 7 tails x case variants, then seeded random "
+    "chains nested 1-4 deep with matching levels of encoding, AMP/Marfeel cache hosts x 7 tails x case variants, "
+    "inner hops that have to be cleaned (unclean_hops: 15 last-but-one-hop urls — every way a hop finds or declines a target, every cache host — "
+    "x EVERY position x the characters of the cleaning class re-derived from the running code [what CONTROL_CHARS_RE.sub removes, what str.strip removes: "
+    "TAB LF CR NUL 0x1F SP DEL NEL 0x9F NBSP U+2028 U+3000, BOM as the one that stays; thorough: every class boundary and its outer neighbour], buried 1-3 "
+    "levels deep with one level of percent-encoding per level, so that the character is escaped in the argument and raw only in a hop's decoded target), then seeded random "
     "compositions; a tenth of the grid and of the random urls is also wrapped in / sprinkled with whitespace and control characters "
     "(infer_redirection looks for its hints in the url cleaned as every url function cleans its input, and returns the argument itself when "
     "it finds none); kind=urljoin cases compare the hand-written urljoin with CPython's on base x reference pairs. "
@@ -50,8 +67,10 @@ RULE = (
     "or the url needs more than one step. Distinct = distinct url."
 )
 EXHAUSTIVE = {
-    "quick": "24 keys x 16 placements x 31 targets x 1 level of encoding (0 and 1 extra levels for the 12 genuine keys), 6 cache hosts x 7 tails x 2 case variants",
-    "thorough": "24 keys x 16 placements x 31 targets x 0-3 extra levels of percent-encoding, chains of depth 1-4 over 4 placements x 5 keys x 6 final targets, 6 cache hosts x 7 tails x 2 case variants",
+    "quick": "24 keys x 16 placements x 31 targets x 1 level of encoding (0 and 1 extra levels for the 12 genuine keys), 6 cache hosts x 7 tails x 2 case variants; "
+    "15 inner hops x every position x 13 code points of the cleaning class at depth 2 (one rotating code point at depths 3, 4)",
+    "thorough": "24 keys x 16 placements x 31 targets x 0-3 extra levels of percent-encoding, chains of depth 1-4 over 4 placements x 5 keys x 6 final targets, 6 cache hosts x 7 tails x 2 case variants; "
+    "15 inner hops x every position x 40 code points (named + every boundary of the regenerated classes and its outer neighbour) x depths 2, 3, 4",
 }
 TRUSTED = [
     "Lean 4 kernel; axioms of every listed theorem audited to be within {propext, Classical.choice, Quot.sound}",
@@ -63,7 +82,10 @@ TRUSTED = [
     "bracketed hosts are approximated (IPvFuture syntax, IPv6 hex groups), NFKC netloc checks are not modelled (identity on the model alphabet)",
     "the theorems hold for ANY target function (termination, fixed point, iteration law are generic in `target`); only the embeddedness "
     "theorem depends on the modelled extraction",
-    "Python side: a low recursion limit and a per-call interval timer turn a loop into an error output instead of a hang",
+    "Python side: a low recursion limit and a per-call interval timer (3 s, 0.5 s once a call has timed out in the process; outcomes memoised per "
+    "process, the function being pure) turn a loop into an error output instead of a hang",
+    "the cleaning class (what CONTROL_CHARS_RE.sub removes, what str.strip removes) is observed by the translator on every code point and "
+    "pinned by the obligation cleaning_class_unchanged; the generator of unclean inner hops derives its characters from the running code the same way",
 ]
 ASSUMPTIONS = [
     "strings contain no lone surrogates; non-ASCII characters come from the plain alphabet of DESIGN.md §4 plus U+0130, U+0131, U+017F, U+212A",
@@ -75,7 +97,9 @@ ASSUMPTIONS = [
 ]
 UNPROVED = (
     "nothing of the statement is left to the oracle alone for the model; urljoin/unquote/urlsplit are modelled-not-verified prelude "
-    "(embeddedness is stated in terms of the model's urljoin and unquote)"
+    "(embeddedness is stated in terms of the model's urljoin and unquote). That the implementation recurses the way the model does "
+    "(every hop reads the cleaned form of its decoded target: infer_every_hop_cleans; the clean-once recursion provably breaks the fixed-point "
+    "clause: clean_once_is_not_a_fixed_point) is established by differential execution on the unclean_hops class, not by proof"
 )
 
 LIMIT_EXTRA = 120
@@ -86,6 +110,14 @@ class _Timeout(Exception):
 
 
 def _on_alarm(signum, frame):
+    # never raise into the line tracer of the harness (lib._cov_start: coverage takes a lock in one callback and
+    # releases it in the next; an exception raised in between leaves it held and the worker deadlocks): try again a moment later
+    f, k = frame, 0
+    while f is not None and k < 4:
+        if "coverage" in f.f_code.co_filename:
+            signal.setitimer(signal.ITIMER_REAL, 0.002)
+            return
+        f, k = f.f_back, k + 1
     raise _Timeout()
 
 
@@ -98,8 +130,27 @@ def _depth():
     return n
 
 
+_memo = {}
+_timeouts = 0
+TIMER, TIMER_AFTER_A_TIMEOUT = 3.0, 0.5
+
+
 def run_infer(u, recursive):
-    """infer_redirection under a low recursion limit and a timer: a loop is an output, not a hang"""
+    """infer_redirection under a low recursion limit and a timer: a loop is an output, not a hang.
+    The function is pure: the outcome for (u, recursive) is memoised per process (correspondence, oracle, nontrivial and
+    classify ask for the same calls), and once a call has timed out in this process the timer is shortened (a call that
+    returns takes well under a millisecond) — so that a looping tree is reported in minutes, not hours."""
+    key = (u, recursive)
+    if key in _memo:
+        return _memo[key]
+    if len(_memo) > 4096:
+        _memo.clear()
+    r = _memo[key] = _run_infer(u, recursive)
+    return r
+
+
+def _run_infer(u, recursive):
+    global _timeouts
     from ural import infer_redirection
 
     old = sys.getrecursionlimit()
@@ -111,11 +162,12 @@ def run_infer(u, recursive):
     sys.setrecursionlimit(_depth() + LIMIT_EXTRA)
     try:
         if timer:
-            signal.setitimer(signal.ITIMER_REAL, 3.0)
+            signal.setitimer(signal.ITIMER_REAL, TIMER_AFTER_A_TIMEOUT if _timeouts else TIMER)
         return infer_redirection(u, recursive=recursive)
     except RecursionError:
         return {"error": "RecursionError"}
     except _Timeout:
+        _timeouts += 1
         return {"error": "Other:Timeout"}
     except Exception as e:  # noqa
         return lib.pyerr(e)
@@ -159,6 +211,12 @@ CACHE_HOSTS = ["cdn.ampproject.org/c/s/", "cdn.ampproject.org/v/", "a-com.cdn.am
                "x.ampproject.org/c/s/x.ampproject.org/c/s/"]
 CACHE_TAILS = ["", "b.com/x", "b.com/x?u=http://c.com", "/", "b.com/?url=%2Fz", "é.fr/é", "bc.marfeel.com/c.com"]
 CORPUS = [
+    # FX-C15-0c9bfa3: hops are followed by a loop; with the recursive spelling 150 nested hops exhaust the lowered
+    # recursion limit of this harness (and 1000 the interpreter's own: RecursionError out of normalize_url,
+    # parse_youtube_url, ... on a 12 kB url)
+    "http://a.com/?url=" * 150 + "http://b.com/",
+    "http://a?u=" * 150 + "http://youtube.com/watch?v=dQw4w9WgXcQ",
+    "x.cdn.ampproject.org/c/s/" * 150 + "b.com/x",
     "http://x&u=/p",  # D28: maps to itself (target not shorter)
     "http://x&u=%2Fx@a.com/p",  # D28: every step used to produce a longer url carrying the hint again
     "a.com/?url=/z",  # D21: relative target of a scheme-less url
@@ -210,6 +268,137 @@ def chain(rng_or_none, depth, placements, keys, final):
     return t
 
 
+# --------------------------------------------------------------------------------------
+# inner hops that have to be cleaned: nested urls whose DECODED form is unclean
+# --------------------------------------------------------------------------------------
+# A hop's target is a percent-decoded value: it can hold characters of the cleaning class that
+# were invisible (escaped) one level up.  The property's fixed-point clause ("the recursive
+# result equals what repeated non-recursive application converges to") then says that the
+# recursion reads such a target the way a fresh call reads it: cleaned.  The class below is
+# derived from the running code (not from the model): the code points CONTROL_CHARS_RE removes
+# and the ones str.strip() removes.
+NAMED_CODES = [0x09, 0x0A, 0x0D, 0x00, 0x1F, 0x20, 0x7F, 0x85, 0x9F, 0xA0, 0x2028, 0x3000, 0xFEFF]
+_cleaning = None
+
+
+def _ranges(codes):
+    out = []
+    for c in sorted(codes):
+        if out and out[-1][1] == c - 1:
+            out[-1][1] = c
+        else:
+            out.append([c, c])
+    return out
+
+
+def cleaning_class():
+    """(removed anywhere, removed at the ends, boundary code points): re-derived on every run from
+    ural.patterns.CONTROL_CHARS_RE (one .sub over every code point) and str.strip()"""
+    global _cleaning
+    if _cleaning is None:
+        lib.ural()
+        import importlib
+
+        pat = importlib.import_module("ural.patterns").CONTROL_CHARS_RE
+        every = [c for c in range(0x110000) if not 0xD800 <= c <= 0xDFFF]
+        kept = set(map(ord, pat.sub("", "".join(map(chr, every)))))
+        control = set(every) - kept
+        space = set(c for c in every if not chr(c).strip())
+        bounds = []
+        for lo, hi in _ranges(control) + _ranges(space) + _ranges(control | space):
+            for c in (lo - 1, lo, hi, hi + 1):
+                if 0 <= c < 0x110000 and not 0xD800 <= c <= 0xDFFF and c not in bounds:
+                    bounds.append(c)
+        _cleaning = (control, space, bounds)
+    return _cleaning
+
+
+def inject_codes(tier):
+    """code points injected: quick = the named ones (TAB LF CR NUL 0x1F SP DEL NEL 0x9F NBSP LS U+3000, BOM as the
+    one that is NOT cleaned); thorough = also every boundary of the regenerated classes and its outer neighbour"""
+    control, space, bounds = cleaning_class()
+    codes = list(NAMED_CODES)
+    if tier != "quick":
+        codes += [c for c in bounds if c not in codes]
+    # whatever the class is today, one member of each kind must be there
+    for kind in (control - space, space - control, control & space):
+        if kind and not kind & set(codes):
+            codes.append(min(kind))
+    return codes
+
+
+# the url of the LAST BUT ONE hop: every way a hop finds its target (redirect key at each regex entry: '?', '&', '^';
+# absolute / relative / scheme-less / youtube / google-q targets; each cache host) and every way it declines
+# (q without /url?q=, target not shorter, unjoinable target): the positions of these strings are the places
+# where the next hop's regexes, substring tests and prefix tests look
+def inner_hops():
+    hs = [
+        "http://b.com/p?next=http://c.com/x",
+        "http://b.com/p?a=1&u=/home",
+        "b.com?url=/z",
+        "redirect_to=https://c.com/",
+        "https://www.youtube.com/redirect?q=c.com/x",
+        "http://b.com/url?q=http://c.com/",
+        "http://b.com/p?q=http://c.com/",
+        "http://x&l=/p",
+        "http://[x?goto=/p",
+        "//b.com/p?target=%2Fx%3Fl%3D%2Fy",
+    ]
+    for i, h in enumerate(CACHE_HOSTS[:5]):
+        hs.append(("https://", "http://x.", "")[i % 3] + h + ("c.com/x", "c.com/?link=/y", "")[i % 3])
+    return hs
+
+
+OUTER = [PLACEMENTS[0], PLACEMENTS[3], PLACEMENTS[12], PLACEMENTS[11], PLACEMENTS[9], PLACEMENTS[15]]
+OUTER_KEYS = ["url", "u", "q", "redirect_to", "next", "l"]
+
+
+def inject(h, pos, code):
+    return h[:pos] + chr(code) + h[pos:]
+
+
+def bury(inner, depth, i=0):
+    """`inner` as the target of a chain of `depth - 1` enclosing redirections, quoted once per level (safe=''):
+    nothing of `inner` is readable before the last enclosing hop has been followed and its value unquoted"""
+    t = inner
+    for lvl in range(depth - 1):
+        k = (i + lvl) % len(OUTER)
+        # a decoded value is followed when it starts with http(s):// or '/'; anything else only behind youtube.com/redirect?
+        pl = OUTER[k] if t.startswith(("http://", "https://", "/")) else PLACEMENTS[12]
+        t = pl % (OUTER_KEYS[k], _quote(t, safe=""))
+    return t
+
+
+def unclean_hops(tier):
+    """every inner hop x every position (before the scheme, inside it, inside '://', the host, the hint key, between
+    key and '=', inside the value, inside a cache host, at the end) x every injected code point, buried 1 level deep
+    (depth 2); depths 3 and 4, and depth 1 (the character raw in the argument), with a rotating code point (quick) /
+    every code point (thorough)"""
+    codes = inject_codes(tier)
+    i = 0
+    for h in inner_hops():
+        for pos in range(len(h) + 1):
+            for j, code in enumerate(codes):
+                i += 1
+                yield bury(inject(h, pos, code), 2, i)
+                if tier != "quick":
+                    yield bury(inject(h, pos, code), 3, i)
+                    yield bury(inject(h, pos, code), 4, i)
+            if tier == "quick":
+                for depth in (3, 4):
+                    i += 1
+                    yield bury(inject(h, pos, codes[(pos + depth) % len(codes)]), depth, i)
+            # depth 1: the same character raw in the argument itself (cleaned by the first hop)
+            for code in codes if tier != "quick" else [codes[pos % len(codes)]]:
+                yield inject(h, pos, code)
+        # both ends at once, and two characters of different kinds side by side
+        for a in codes[:6]:
+            for b in codes[3:9]:
+                i += 1
+                yield bury(chr(a) + h + chr(b), 2 + i % 3, i)
+                yield bury(inject(h, len(h) // 2, a) + chr(b), 2 + i % 3, i)
+
+
 def cases(rng, tier):
     for u in CORPUS:
         yield {"url": u}
@@ -252,6 +441,9 @@ def cases(rng, tier):
     for h in CACHE_HOSTS[:3]:
         yield {"url": "https://" + h + "a.com/p?url=" + _quote("https://" + h + "b.com/x", safe="")}
         yield {"url": "http://a.com/?u=" + _quote("https://" + h + "b.com/?l=/q", safe="")}
+    # nested redirections whose decoded inner url is unclean where the next hop looks
+    for u in unclean_hops(tier):
+        yield {"url": u}
     # urljoin prelude
     jb = ["http://a.com/p/q?x#f", "http://a.com", "//a.com/p", "a.com/p", "custom://h/p", "http:///p", "HTTP://U:P@H:80/a/b;c", "http://[::1]/p", "http://[x/p",
           "/only/path", "", "ws://h/a/b/", "http://a.com/p;par/q;r", "svn+ssh://h/p"]
@@ -262,9 +454,22 @@ def cases(rng, tier):
     # seeded random compositions
     n = 30000 if tier == "quick" else 250000
     alphabet = "au=&?/%:.#2Fq@x[ é"
+    rcodes = inject_codes("thorough")
     for _ in range(n):
         r = rng.random()
-        if rng.random() < 0.1:
+        if rng.random() < 0.06:
+            # a random chain, one or two characters of the cleaning class injected into one of its levels before
+            # that level is quoted into the next one
+            d = rng.randint(2, 4)
+            lvl = rng.randint(0, d - 2)
+            t = rng.choice(TARGETS + finals)
+            for i in range(d):
+                t = rng.choice(PLACEMENTS) % (rng.choice(KEYS), _quote(t, safe=""))
+                if i == lvl:
+                    for _k in range(rng.randint(1, 2)):
+                        t = inject(t, rng.randint(0, len(t)), rng.choice(rcodes))
+            yield {"url": t}
+        elif rng.random() < 0.1:
             d = rng.randint(1, 3)
             yield {"url": wrap(chain(None, d, [rng.choice(PLACEMENTS) for _ in range(d)], [rng.choice(KEYS) for _ in range(d)],
                                      rng.choice(TARGETS + finals)), rng.randint(0, 1000))}
@@ -426,6 +631,7 @@ def classify(case):
     u = case["url"]
     s, r = _outcome(u)
     labs = []
+    unclean_hop = False
     if not isinstance(r, str):
         labs.append("outcome=error")
     elif r == u:
@@ -436,8 +642,14 @@ def classify(case):
             y = run_infer(x, False)
             if y == x or not isinstance(y, str):
                 break
+            if n and cleaned(x) != x:
+                unclean_hop = True
             x, n = y, n + 1
         labs.append("outcome=followed steps=%d" % min(n, 6))
+        if unclean_hop:
+            labs.append("unclean-inner-hop(followed)")
+        elif n and cleaned(x) != x:
+            labs.append("unclean-inner-hop(end)")
     if _CACHE.search(u):
         labs.append("cache-host")
     if cleaned(u) != u:
